@@ -102,6 +102,8 @@ VC_MESSAGES = [
     ("failed this postcondition", "ensures"),
     ("cannot show invariant holds", "invariant"),
     ("loop ensures not satisfied", "ensures"),
+    ("unable to prove post-condition of closure", "ensures"),
+    ("unable to prove pre-condition of closure", "requires"),
 ]
 RLIMIT_MSG = ("Resource limit (rlimit) exceeded", "resource limit", "rlimit")
 
